@@ -120,11 +120,13 @@ class Acc:
         if what not in self.caps:
             self.caps.append(what)
 
-    def violation(self, cases, spec, msg, outcomes, finding=None):
-        """Registers a candidate violation (confirmed through the CLI in the parent)."""
+    def violation(self, cases, spec, msg, outcomes, finding=None, priority=0):
+        """Registers a candidate violation (confirmed through the CLI in the parent).  Up to MAX_VIOL candidates are kept
+        per priority level; lower levels are confirmed first (used for clauses a cross-run state leak cannot fake)."""
         self.nviol += 1
-        if len(self.violations) < MAX_VIOL:
+        if sum(1 for v in self.violations if v.get('priority', 0) == priority) < MAX_VIOL:
             self.violations.append({
+                'priority': priority,
                 'cases': [c.to_json() if isinstance(c, Case) else c for c in cases],
                 'spec': spec, 'message': msg,
                 'observed_inproc': [o.to_json() if isinstance(o, Outcome) else o for o in outcomes],
@@ -147,7 +149,7 @@ class Acc:
             self.known_examples.setdefault(k, v)
         self.nviol += o.nviol
         for v in o.violations:
-            if len(self.violations) < MAX_VIOL * 4:
+            if sum(1 for w in self.violations if w.get('priority', 0) == v.get('priority', 0)) < MAX_VIOL * 4:
                 self.violations.append(v)
         for s in o.samples:
             if len(self.samples) < 3:
@@ -240,21 +242,24 @@ def run_check(pid, tier, seed, replay=None):
         a = (oj['status'], oj['image_hex'], oj['pretty'])
         if (o.status, None if o.image is None else o.image.hex(), o.pretty) != a:
             diverged.append((cj, oj, o.to_json()))
+    divergence_msg = None
     if diverged:
         os.makedirs(os.path.join(REPLAY_DIR, pid), exist_ok=True)
         p = os.path.join(REPLAY_DIR, pid, 'harness-divergence.json')
         with open(p, 'w') as f:
             json.dump([{'case': c, 'inproc': a, 'other': b} for c, a, b in diverged[:5]], f, indent=1)
-        print(f'HARNESS-DIVERGENCE property={pid}: in-process and CLI executions disagree on {len(diverged)} '
-              f'cross-checked cases (see {p}); no verdict issued')
-        return 2
+        divergence_msg = (f'HARNESS-DIVERGENCE property={pid}: in-process and CLI executions disagree on {len(diverged)} '
+                          f'cross-checked cases (see {p})')
+        # In-process observations cannot be trusted in this run (state leaks between executions in one process).
+        # Candidate violations are still taken through the real CLI below: a violation that a fresh CLI process
+        # reproduces against the reference-computed expectation is genuine whatever the in-process runs saw.
 
     # ---- violations: confirm through the CLI, attribute to known findings ------------------------
     confirmed = []
     unconfirmed = 0
     known_hit = collections.OrderedDict()
     seen_payload = set()
-    for v in total.violations:
+    for v in sorted(total.violations, key=lambda w: w.get('priority', 0)):
         key = h64(json.dumps([v['cases'], v['spec']], sort_keys=True, default=str))
         if key in seen_payload:
             continue
@@ -342,6 +347,9 @@ def run_check(pid, tier, seed, replay=None):
             print(f'  {v.get("message_cli") or v["message"]}')
             print(f'VIOLATION property={pid} replay={p}')
         return 1
+    if divergence_msg:
+        print(divergence_msg + '; no verdict issued')
+        return 2
     if unconfirmed:
         print(f'HARNESS-DIVERGENCE property={pid}: {unconfirmed} in-process disagreement(s) were not reproduced '
               f'by the real CLI; no verdict issued')
